@@ -5,7 +5,8 @@ open Lean DoitModel.Status DoitModel.Inputs
 namespace Driver.P10
 /-! requests `{"model":"c10","mode":"model"|"monitor"|"getargs", …}`
 
-`mode = "model"` (K) and `"monitor"` (P): `{"ntasks":n,"npaths":n,"ops":[op…]}`; ops are those of the status driver
+`mode = "model"` (K) and `"monitor"` (P): `{"ntasks":n,"npaths":n,"ops":[op…]}` (model mode: optional
+`"repaired":true` = `depChangedRepaired`, the loop with the repair of findings/pending/C10-readded-dep-stale-state.md); ops are those of the status driver
 for the file system / definitions / commands (`edit touch delete editKeep redefine checker forget ignore unmet`) plus
   `["addcalc", t, [p…]]`                 `update_deps`: file_dep delivered by a calc_dep task (both modes)
   `["select", t, always]`                model mode: `get_status` of `t` is reached; answer: status, executes, the kwargs
@@ -74,20 +75,20 @@ def parseEv (j : Json) : Option Ev :=
 
 def nullJ : Json := Json.mkObj [("kind", Json.str "-")]
 
-def selectJ (s : St) (t : Nat) (always : Bool) : Json :=
+def selectJ (repaired : Bool) (s : St) (t : Nat) (always : Bool) : Json :=
   Json.mkObj [("kind", Json.str "select"),
     ("status", Json.str (Driver.Status.statusStr (s.status true t))),
     ("executes", Json.bool (executes s t always)),
-    ("kw", kwJ (kwargsOf s t)),
+    ("kw", kwJ (if repaired then kwargsRepaired s t else kwargsOf s t)),
     ("falseItem", Json.bool (utdFalse (s.rcd t).getValues s.resOf (s.defs t).uptodate)),
     ("ambiguous", Json.bool (Driver.Status.ambiguousAt s t))]
 
-def modelStep (s : St) : Ev → St × Json
+def modelStep (repaired : Bool) (s : St) : Ev → St × Json
   | .st (.op o) => (istep s (.base o), Json.mkObj [("kind", Json.str "op"), ("crashed", Json.bool (istep s (.base o)).crashed)])
   | .st _ => (s, nullJ)
   | .addcalc t ps => (istep s (.base (.redefine t (withCalc (s.defs t) ps))),
       Json.mkObj [("kind", Json.str "addcalc"), ("deps", ofNats (sortNats (withCalc (s.defs t) ps).deps))])
-  | .select t always => (istep s (.select t), selectJ s t always)
+  | .select t always => (istep s (.select t), selectJ repaired s t always)
   | .complete t ok ws res =>
     let s' := istep s (.complete t ok ws res)
     (s', Json.mkObj [("kind", Json.str "complete"), ("crashed", Json.bool s'.crashed),
@@ -185,7 +186,7 @@ def handle (j : Json) : Json :=
       Json.mkObj [("steps", mkArr outs.reverse)]
     else
       let (_, outs) := evs.foldl (fun (acc : St × List Json) e =>
-        let (s', o) := modelStep acc.1 e
+        let (s', o) := modelStep (jbool j "repaired") acc.1 e
         (s', o :: acc.2)) (St.init, [])
       Json.mkObj [("steps", mkArr outs.reverse)]
 
